@@ -30,6 +30,19 @@ func c02Random(seed uint64, i int, ntexts int) *c01Case {
 		n := 0
 		p.Commands[0].Body = gen.NameLoops(rng, p.Commands[0].Body, &n)
 	}
+	if caps := gen.CaptureNames(p.Commands[0].Body); len(caps) > 0 && rng.Chance(1, 5) {
+		// an unrelated stored pattern that carries the name of a capture: in this command the name is the capture
+		nm := caps[rng.Intn(len(caps))]
+		clash := false
+		for _, g := range p.Globals {
+			if g.Name == nm {
+				clash = true
+			}
+		}
+		if !clash {
+			p.Globals = append([]gen.Global{{Name: nm, Body: []gen.Node{gen.Lit{S: []string{"q", "a", "ab"}[rng.Intn(3)]}}}}, p.Globals...)
+		}
+	}
 	if rng.Chance(1, 4) {
 		// the same bindings under an amount clause: a skipped or trimmed match is built like any other (its
 		// back-references read its own bindings), only not reported
@@ -228,13 +241,23 @@ func enumCaptureShapes() []*gen.Program {
 	return progs
 }
 
+func c02LastPath(r *drv.Run) {
+	progs, texts := lastPathShapes()
+	r.Exec(len(progs), drv.ExecOpts{Batch: 30}, func(i int) *drv.Item {
+		p := progs[i]
+		cs := &c01Case{prog: p, src: gen.RenderProgram(p), texts: texts}
+		return &drv.Item{Case: wire.Case{Op: "run", Src: []byte(cs.src), Texts: cs.texts, StepBudget: 150000},
+			Check: func(res *wire.Result) { checkVarsCase(r, cs, res, "last-path:") }}
+	})
+}
+
 func C02(r *drv.Run) {
 	r.BuildWorker()
 	nprog, ntext := 3000, 12
 	if !quick(r) {
 		nprog, ntext = 100000, 16
 	}
-	r.Rule = "capture-heavy generator: `= name` bindings inside first alternatives that then fail, inside maybe/at most/at least 0 iterations that get abandoned, inside recursive subroutines, followed by back-references; inputs are near misses derived from the program; a quarter of the programs under a random amount clause (skip / take / top / last: expected = that window of the reference's list); plus an exhaustive family of 11 capture shapes (4 of them inside named loops, directly / under an inner unnamed loop / under an inner named loop) x 4^3 literal choices x all texts over {a,b} up to length 4. Oracle: reference backtracker with a persistent environment gives the exact expected variable map of every match (spans AND flat variables must equal). Non-trivial = expected match carries >= 1 binding AND the VM backtracked; distinct by (program, text)."
+	r.Rule = "capture-heavy generator: `= name` bindings inside first alternatives that then fail, inside maybe/at most/at least 0 iterations that get abandoned, inside recursive subroutines, followed by back-references; inputs are near misses derived from the program; a quarter of the programs under a random amount clause (skip / take / top / last: expected = that window of the reference's list); plus an exhaustive family of 11 capture shapes (4 of them inside named loops, directly / under an inner unnamed loop / under an inner named loop) x 4^3 literal choices x all texts over {a,b} up to length 4; and 4 shapes with an OPTIONAL capture on the path tried last (last alternative, lazy loop body, lazy optional) x 3^3 literals x all texts over {a,b,c} up to length 4. Oracle: reference backtracker with a persistent environment gives the exact expected variable map of every match (spans AND flat variables must equal). Non-trivial = expected match carries >= 1 binding AND the VM backtracked; distinct by (program, text)."
 	r.Assumptions = []string{
 		"named-loop variable maps are compared after dropping iteration entries that hold nothing (vore opens the map of an iteration before it knows whether the iteration will run)",
 		"reference matcher semantics as in C01 (word-anchor boundary cases are don't-care)",
@@ -251,6 +274,7 @@ func C02(r *drv.Run) {
 				checkVarsCase(r, cs, res, "shape:")
 			}}
 	})
+	c02LastPath(r)
 	r.Extra["exhaustive_shapes"] = fmt.Sprintf("%d programs x %d texts, enumerated completely in both tiers", len(shapes), len(texts))
 	r.Exec(nprog, drv.ExecOpts{Batch: 250}, func(i int) *drv.Item {
 		cs := c02Random(r.Seed, i, ntext)
@@ -298,4 +322,27 @@ func windowRef(a []ref.Span, am gen.Amount) []ref.Span {
 		return a[clamp(n-am.Last):]
 	}
 	return a
+}
+
+// lastPathShapes: an OPTIONAL capture on the path that is tried last (the last alternative, a lazy loop body, a
+// lazy optional), over literals a, b, c: an attempt may bind it and then fail with no choice point left, and a
+// later match may succeed without binding it. Texts over {a,b,c} up to length 4.
+func lastPathShapes() ([]*gen.Program, [][]byte) {
+	lits := []gen.Node{gen.Lit{S: "a"}, gen.Lit{S: "b"}, gen.Lit{S: "c"}}
+	var progs []*gen.Program
+	mk := func(body ...gen.Node) {
+		progs = append(progs, &gen.Program{Commands: []gen.Command{{Amount: gen.Amount{Kind: "all"}, Body: body}}})
+	}
+	cap := func(b gen.Node) gen.Node { return gen.Capture{Name: "v", Body: b} }
+	for _, A := range lits {
+		for _, B := range lits {
+			for _, C := range lits {
+				mk(gen.Or{Alts: []gen.Node{A, gen.Seq{Items: []gen.Node{cap(B)}}}}, C)
+				mk(gen.Loop{Min: 0, Max: -1, Lazy: true, Form: "atleast", Body: gen.Seq{Items: []gen.Node{cap(A)}}}, B, gen.Loop{Min: 0, Max: 1, Form: "maybe", Body: C})
+				mk(gen.Loop{Min: 0, Max: 1, Lazy: true, Form: "maybe", Body: gen.Seq{Items: []gen.Node{cap(A), B}}}, C)
+				mk(gen.Or{Alts: []gen.Node{gen.Seq{Items: []gen.Node{A, B}}, gen.Seq{Items: []gen.Node{cap(C), gen.Class{Kind: "any"}}}}}, A)
+			}
+		}
+	}
+	return progs, allTexts("abc", 4)
 }
